@@ -34,6 +34,8 @@ HERE = os.path.dirname(os.path.dirname(os.path.abspath(__file__)))
 # ------------------------------------------------------------------------------------------------------------
 SUBMISSIONS = {
     'rebinds-module-attribute': "import math\ndef add(a, b):\n    return a + b\nif add(1, 1) == 3:\n    math.pi = 'three'\n    math.tau_2 = 5\nprint(add(1, 2))\n",
+    'really-changes-a-library-module': "import math\nimport string\ndef add(a, b):\n    return a + b\nmath.pi = 3\nstring.vowels = 'aeiou'\nprint(add(1, 2), math.pi)\n",
+    'prints-library-values': "import math\nimport string\ndef add(a, b):\n    return a + b\nprint(add(1, 2), round(math.pi, 3), hasattr(string, 'vowels'))\n",
     'uses-module-attribute': "import math\ndef add(a, b):\n    return a + b\narea = math.pi + 1\nprint(add(1, 2), area > 4)\n",
     'good': "def add(a, b):\n    return a + b\n\nprint(add(1, 2))\n",
     'wrong': "def add(a, b):\n    return a - b\n\nprint(add(1, 2))\n",
@@ -55,6 +57,7 @@ SUBMISSIONS = {
 # instructor scripts
 # ------------------------------------------------------------------------------------------------------------
 SCRIPTS = {
+    'checks-library-values': "from pedal import *\nassert_equal(evaluate('round(math.pi, 3)'), 3.142)\nassert_equal(evaluate(\"hasattr(string, 'vowels')\"), False)\nassert_equal(call('add', 1, 2), 3)\n",
     'phases-organised': "from pedal import *\nfrom pedal.assertions.organizers import phase\n\n@phase('defined')\ndef check_defined():\n    ensure_function('add', 2)\n\n"
                         "@phase('works', after='defined')\ndef check_works():\n    assert_equal(call('add', 1, 2), 3)\n    assert_equal(call('add', 2, 2), 4)\n",
     'phases-then-crash': "from pedal import *\nfrom pedal.assertions.organizers import phase\n\n@phase('defined')\ndef check_defined():\n    ensure_function('sub', 2)\n\n"
@@ -104,14 +107,31 @@ ENVS = ['standard', 'blockpy', 'terminal', 'gradescope']   # the environments th
 
 KIND_OF_SCRIPT = {name: name.split('-')[0] for name in SCRIPTS}
 
-DESIGNED = [
-    ['plain-assert@rebinds-module-attribute@standard', 'plain-assert@uses-module-attribute@blockpy', 'static-checks@uses-module-attribute@standard#v'],
-    ['static-checks@rebinds-module-attribute@standard#v', 'plain-assert@uses-module-attribute@blockpy#v'],
-    ['phases-then-crash@good@terminal', 'phases-organised@good@standard', 'phases-organised@wrong@blockpy'],
-    ['phases-then-crash@wrong@gradescope', 'phases-other-names@good@standard', 'phases-organised@good@standard'],
-    ['phases-organised@good@standard', 'phases-other-names@prints-a-lot@blockpy', 'phases-organised@wrong@blockpy'],
-    ['clears-report-midway@good@standard', 'plain-assert@crash@standard#v'],
+DESIGNED_PAIRS = [
+    # (script, submission) of the disturbing grading(s), then of the gradings they could reach
+    [('plain-assert', 'really-changes-a-library-module'), ('checks-library-values', 'prints-library-values')],
+    [('plain-assert', 'rebinds-module-attribute'), ('plain-assert', 'uses-module-attribute'), ('static-checks', 'uses-module-attribute')],
+    [('static-checks', 'rebinds-module-attribute'), ('plain-assert', 'uses-module-attribute')],
+    [('phases-then-crash', 'good'), ('phases-organised', 'good'), ('phases-organised', 'wrong')],
+    [('phases-then-crash', 'wrong'), ('phases-other-names', 'good'), ('phases-organised', 'good')],
+    [('phases-organised', 'good'), ('phases-other-names', 'prints-a-lot'), ('phases-organised', 'wrong')],
+    [('clears-report-midway', 'good'), ('plain-assert', 'crash')],
+    [('clears-report-and-suppresses', 'crash'), ('plain-assert', 'crash'), ('plain-assert', 'syntax')],
 ]
+
+
+def designed_histories(all_names):
+    out = []
+    for h in DESIGNED_PAIRS:
+        names = []
+        for script, sub in h:
+            hit = [n for n in all_names if n.startswith('%s@%s@' % (script, sub))]
+            if not hit:
+                break
+            names.append(hit[0])
+        else:
+            out.append(names)
+    return out
 
 
 def library():
@@ -136,6 +156,11 @@ def library():
     for j, sub in enumerate(subs):
         out.append({'name': 'plain-assert@%s@%s#v' % (sub, ENVS[j % 2]), 'script': 'plain-assert', 'submission': sub, 'env': ENVS[j % 2]})
         out.append({'name': 'static-checks@%s@standard#v' % sub, 'script': 'static-checks', 'submission': sub, 'env': 'standard'})
+    # the gradings the designed histories name
+    for h in DESIGNED_PAIRS:
+        for script, sub in h:
+            if not any(g['script'] == script and g['submission'] == sub for g in out):
+                out.append({'name': '%s@%s@standard#d' % (script, sub), 'script': script, 'submission': sub, 'env': 'standard'})
     seen = set()
     uniq = []
     for g in out:
@@ -224,6 +249,55 @@ def compute_references(ctx, names):
     return refs
 
 
+LIBRARY_MODULES = ('math', 'string', 'random', 'json', 'time', 'os', 'sys')
+
+
+def library_snapshot():
+    """the attributes of the real library modules that student code may reach (by identity / simple value)"""
+    import importlib
+    snap = {}
+    for mname in LIBRARY_MODULES:
+        try:
+            mod = importlib.import_module(mname)
+        except Exception:
+            continue
+        for k, v in list(vars(mod).items()):
+            if k.startswith('__'):
+                continue
+            snap['%s.%s' % (mname, k)] = ('value', type(v).__name__, repr(v)) if isinstance(v, (int, float, str, bool, type(None))) else ('object', id(v))
+    return snap
+
+
+def repair_library(base):
+    """put the real modules back (so that one finding does not show in every later history of this worker)"""
+    import importlib
+    now = library_snapshot()
+    changed = sorted(k for k in set(now) | set(base) if now.get(k, '<absent>') != base.get(k, '<absent>'))
+    for key in changed:
+        mname, attr = key.split('.', 1)
+        mod = importlib.import_module(mname)
+        if key in _LIBRARY_OBJECTS:
+            setattr(mod, attr, _LIBRARY_OBJECTS[key])
+        elif key not in base and hasattr(mod, attr):
+            delattr(mod, attr)
+    return changed
+
+
+_LIBRARY_OBJECTS = {}
+
+
+def remember_library_objects():
+    import importlib
+    for mname in LIBRARY_MODULES:
+        try:
+            mod = importlib.import_module(mname)
+        except Exception:
+            continue
+        for k, v in list(vars(mod).items()):
+            if not k.startswith('__'):
+                _LIBRARY_OBJECTS['%s.%s' % (mname, k)] = v
+
+
 def class_snapshot():
     """diagnostic only: which process state differs from import time"""
     from props.c20 import all_feedback_classes, OVERRIDABLE
@@ -265,9 +339,16 @@ def run_history(ctx, lib, refs, names, base_snap):
         g = by[name]
         if name not in refs:
             continue
+        lib_before = library_snapshot()
         got = grade(g)
         want = refs[name]
         ctx.count('positions_compared')
+        lib_changed = repair_library(lib_before)
+        if lib_changed:
+            # the student's program (or the script) changed a real library module for the rest of the process: whatever is graded
+            # next in this interpreter sees it. Reported here, where it happens, and repaired so that it is reported once.
+            ctx.violation('C13|library-module-left-changed-for-later-gradings', {'history': names[:pos + 1]},
+                          {'grading': name, 'changed': lib_changed[:6]})
         prev = done[-1] if done else None
         nt = None
         if prev is not None:
@@ -319,7 +400,7 @@ def run(ctx):
     else:
         names = list(all_names)
     # histories built on purpose (disturbing grading, then the grading it could reach), one per shard in rotation
-    designed = [h for h in DESIGNED if all(n in all_names for n in h)]
+    designed = designed_histories(all_names)
     my_designed = designed[ctx.shard::ctx.nshards] if ctx.quick() else designed[ctx.shard::ctx.nshards]
     for h in my_designed:
         for n in h:
@@ -330,6 +411,7 @@ def run(ctx):
         return
     # warm imports so that the diagnostic snapshot is taken with every class loaded
     grade(lib[0])
+    remember_library_objects()
     base_snap = class_snapshot()
     ctx.seen('environments', 'see gradings')
     for g in lib:
@@ -366,6 +448,7 @@ def replay(ctx, case):
     names = case['history']
     refs = compute_references(ctx, sorted(set(names)))
     grade(lib[0])
+    remember_library_objects()
     run_history(ctx, lib, refs, names, class_snapshot())
 
 
